@@ -65,6 +65,11 @@ var c04Cases = []c04Case{
 		return f.K == want
 	}},
 	{"A30", nil, func(p *factSnap, f *Fact, w *tbWorld) bool { return verif.And(f.K == 10, f.RI == p.ma+1) }},
+	{"A31", nil, func(p *factSnap, f *Fact, w *tbWorld) bool { return f.Hits == p.f.Hits+7 }},
+	{"A32", nil, func(p *factSnap, f *Fact, w *tbWorld) bool { return int64(f.Cs[0]) == p.f.I }},
+	{"A33", nil, func(p *factSnap, f *Fact, w *tbWorld) bool {
+		return verif.And(int64(f.Cs[1]) == int64(p.cs[1])+2, f.Cs[0] == p.cs[0])
+	}},
 }
 
 func VerifC04Assign() {
